@@ -20,6 +20,7 @@ class Prog:
         s.names = set()
         s.allnames = set()
         s.branch_depth = 0
+        s.branch_kinds = []
 
     def fresh(s, base):
         """letters only: the Wireshark printer cuts type names at the first digit when it builds its registry"""
@@ -92,10 +93,10 @@ class Prog:
 
     def new_struct(s, depth):
         name = f'{s.p}St{s.fresh("")}'
-        saved = s.names, s.branch_depth
-        s.names, s.branch_depth = set(), 0
+        saved = s.names, s.branch_depth, s.branch_kinds
+        s.names, s.branch_depth, s.branch_kinds = set(), 0, []
         body = s.members(depth + 1, in_struct=True, budget=s.rng.randint(1, 4))
-        s.names, s.branch_depth = saved
+        s.names, s.branch_depth, s.branch_kinds = saved
         s.helpers.append((name, f'struct {name} {{\n' + body + '\n}'))
         return name
 
@@ -104,25 +105,34 @@ class Prog:
         r = s.rng
         ty = r.choice(SCALARS)
         n = s.field('v' + ty)
-        if ty in INTS and r.random() < 0.08:
+        in_enum_branch = bool(s.branch_kinds) and s.branch_kinds[-1] == 'enum'
+        if ty in INTS and r.random() < 0.08 and not (in_enum_branch and 'constant-member-in-enum-branch' in s.avoid):
             s.classes.add('constant-member')
+            if in_enum_branch:
+                s.classes.add('constant-member-in-enum-branch')
             return f'{indent}{ty} {n} = {r.choice([0, 1, 7])};'
         return f'{indent}{ty} {n};'
 
     def array(s, indent, depth, allow_endless, after_conditional):
         r = s.rng
         kind = r.choice(['fixed', 'var', 'var', 'endless' if allow_endless else 'var'])
+        is_struct = False
         if r.random() < 0.3 and depth < 2:
             elem = s.new_struct(depth)
+            is_struct = True
             s.classes.add('array-of-struct')
+            if kind == 'fixed' and 'fixed-array-of-struct' in s.avoid:
+                kind = 'var'
+            elif kind == 'fixed':
+                s.classes.add('fixed-array-of-struct')
         else:
             elem = r.choice(ARRAY_ELEMS)
         n = s.field('arr' + elem)
-        if kind == 'fixed' and elem in ('Guid', 'PackedGuid') and s.branch_depth >= 1 and 'fixed-guid-array-in-branch' in s.avoid:
+        if kind == 'fixed' and elem in ('Guid', 'PackedGuid', 'Spell') and s.branch_depth >= 1 and 'fixed-guid-array-in-branch' in s.avoid:
             elem = 'u64'
         if kind == 'fixed':
             s.classes.add('fixed-array')
-            if s.branch_depth >= 1 and elem in ('Guid', 'PackedGuid'):
+            if s.branch_depth >= 1 and elem in ('Guid', 'PackedGuid', 'Spell'):
                 s.classes.add('fixed-guid-array-in-branch')
             if elem == 'CString':
                 elem = 'u32'
@@ -190,12 +200,14 @@ class Prog:
             out.append(f'{indent}optional {s.field("opt")} {{\n{inner}\n{indent}}}')
         return '\n'.join(out)
 
-    def block(s, depth, budget=None):
+    def block(s, depth, budget=None, kind='enum'):
+        s.branch_kinds.append(kind)
         s.branch_depth += 1
         body = s.members(depth + 1, budget=budget if budget is not None else s.rng.randint(1, 3))
         if not body.strip():
             body = s.scalar('    ')
         s.branch_depth -= 1
+        s.branch_kinds.pop()
         return '\n'.join('    ' + l for l in body.split('\n'))
 
     def enum_if(s, indent, depth):
@@ -256,7 +268,7 @@ class Prog:
             # constant-size members only unless nested conditionals in flag branches are allowed
             if 'conditional-inside-flag-branch' in s.avoid:
                 return '\n'.join('    ' + s.scalar(indent) for _ in range(r.randint(1, 2)))
-            t = s.block(depth)
+            t = s.block(depth, kind='flag')
             if 'if (' in t:
                 s.classes.add('conditional-inside-flag-branch')
             return t
@@ -280,6 +292,12 @@ def make_program(prefix, seed, avoid=()):
 
 # dedicated probes for construct classes recorded as open known findings: small hand-written programs, one class each
 PROBES = {
+    'fixed-array-of-struct': lambda p: {
+        'body': f'    {p}Sta[2] arrst;\n    u8 xbyte;',
+        'helpers': [(f'{p}Ena', f'enum {p}Ena : u8 {{\n    A = 0;\n    B = 1;\n}}'), (f'{p}Sta', f'struct {p}Sta {{\n    {p}Ena eone;\n    if (eone == A) {{\n        u32 xint;\n    }}\n    u8 xbyteb;\n}}')]},
+    'constant-member-in-enum-branch': lambda p: {
+        'body': f'    {p}Ena eone;\n    if (eone == A) {{\n        u32 xconst = 7;\n    }}\n    Spell vspell;\n    u8 xbyte;',
+        'helpers': [(f'{p}Ena', f'enum {p}Ena : u8 {{\n    A = 0;\n    B = 1;\n}}')]},
     'fixed-guid-array-in-branch': lambda p: {
         'body': f'    {p}Ena eone;\n    if (eone == A) {{\n        Guid[3] arrguid;\n    }}\n    u8 xbyte;',
         'helpers': [(f'{p}Ena', f'enum {p}Ena : u8 {{\n    A = 0;\n    B = 1;\n}}')]},
@@ -307,3 +325,50 @@ PROBES = {
         'body': f'    {p}Fla flone;\n    if (flone & B0) {{\n        {p}Ena eone;\n        if (eone == A) {{\n            u32 xintb;\n        }}\n    }}\n    u8 xbyteb;',
         'helpers': [(f'{p}Ena', f'enum {p}Ena : u8 {{\n    A = 0;\n    B = 1;\n}}'), (f'{p}Fla', f'flag {p}Fla : u8 {{\n    NONE = 0x00;\n    B0 = 0x01;\n    B1 = 0x02;\n}}')]},
 }
+
+
+def systematic_programs(prefix_of):
+    """Deterministic small programs crossing branch contents of different size classes (constant small, constant large,
+    string, counted array, packed guid): every ordered pair as if/else on an enum, some if/else-if/else triples, and pairs
+    of independent flag ifs.  prefix_of(i) -> type-name prefix for program i."""
+    kinds = [('u8', lambda p: f'        u8 {p.field("vu")};'),
+             ('u32', lambda p: f'        u32 {p.field("vu")};'),
+             ('wide', lambda p: f'        u64 {p.field("vu")};\n        u64 {p.field("vu")};\n        Guid {p.field("vguid")};'),
+             ('cstring', lambda p: f'        CString {p.field("vcstring")};'),
+             ('array', lambda p: (lambda c: f'        u8 {c};\n        u16[{c}] {p.field("arru")};')(p.field("amountu_of"))),
+             ('packed', lambda p: f'        PackedGuid {p.field("vpackedguid")};')]
+    out = []
+    i = 0
+
+    def mk(body_fn, classes):
+        nonlocal i
+        p = Prog(prefix_of(i), random.Random(f'sys{i}'))
+        body = body_fn(p)
+        out.append({'body': body, 'helpers': p.helpers, 'classes': sorted(set(classes)), 'systematic': True})
+        i += 1
+    for (na, fa) in kinds:
+        for (nb, fb) in kinds:
+            if na == nb:
+                continue
+
+            def body(p, fa=fa, fb=fb):
+                name, base, ens = p.new_enum(signed_ok=False)
+                var = p.field('e' + name)
+                return (f'    {name} {var};\n    if ({var} == {ens[0]}) {{\n{fa(p)}\n    }} else {{\n{fb(p)}\n    }}\n    u8 {p.field("vu")};')
+            mk(body, [f'sys:if-else:{na}/{nb}'])
+    for (na, fa), (nb, fb), (nc, fc) in [(kinds[0], kinds[3], kinds[2]), (kinds[3], kinds[0], kinds[4]), (kinds[2], kinds[5], kinds[3]),
+                                         (kinds[4], kinds[1], kinds[0]), (kinds[1], kinds[2], kinds[3]), (kinds[5], kinds[3], kinds[1])]:
+        def body(p, fa=fa, fb=fb, fc=fc):
+            name, base, ens = p.new_enum(signed_ok=False)
+            while len(ens) < 3:
+                name, base, ens = p.new_enum(signed_ok=False)
+            var = p.field('e' + name)
+            return (f'    {name} {var};\n    if ({var} == {ens[0]}) {{\n{fa(p)}\n    }}\n    else if ({var} == {ens[1]}) {{\n{fb(p)}\n    }}\n    else {{\n{fc(p)}\n    }}\n    u8 {p.field("vu")};')
+        mk(body, [f'sys:if-elif-else:{na}/{nb}/{nc}'])
+    for (na, fa), (nb, fb) in [(kinds[0], kinds[3]), (kinds[3], kinds[4]), (kinds[2], kinds[5]), (kinds[4], kinds[0]), (kinds[5], kinds[1]), (kinds[1], kinds[2])]:
+        def body(p, fa=fa, fb=fb):
+            name, base, ens = p.new_flag()
+            var = p.field('fl' + name)
+            return (f'    {name} {var};\n    if ({var} & {ens[0]}) {{\n{fa(p)}\n    }}\n    if ({var} & {ens[1]}) {{\n{fb(p)}\n    }}\n    u8 {p.field("vu")};')
+        mk(body, [f'sys:flag-if-if:{na}/{nb}'])
+    return out
